@@ -220,8 +220,9 @@ macro_rules! impl_classification {
 
             fn fit(&self, dataset: &DatasetBase<$records, $targets>) -> Result<Self::Object> {
                 let kernel = self.kernel_params().transform(dataset.records());
-                let target = dataset.as_single_targets();
-                let target = target.as_slice().unwrap();
+                // the targets in logical order, whatever their memory layout (views may be reversed or strided)
+                let target = dataset.as_single_targets().to_vec();
+                let target = target.as_slice();
 
                 let ret = match (self.c(), self.nu()) {
                     (Some((c_p, c_n)), _) => fit_c(
@@ -251,8 +252,9 @@ macro_rules! impl_classification {
 
             fn fit(&self, dataset: &DatasetBase<$records, $targets>) -> Result<Self::Object> {
                 let kernel = self.kernel_params().transform(dataset.records());
-                let target = dataset.as_single_targets();
-                let target = target.as_slice().unwrap();
+                // the targets in logical order, whatever their memory layout (views may be reversed or strided)
+                let target = dataset.as_single_targets().to_vec();
+                let target = target.as_slice();
 
                 let ret = match (self.c(), self.nu()) {
                     (Some((c_p, c_n)), _) => fit_c(
